@@ -36,7 +36,7 @@ class Problem:
         self.atoms = {}
         self._base = None
         self.zero = set()      # eliminated digits proven to be 0 (dead remainders, e.g. Montgomery low halves)
-        self.var_elim = []     # (var, Poly) from proven equalities with a unit pivot (Gaussian step), in order
+        self.var_elim = list(getattr(ctx, 'extra_defs', []))     # (var, Poly): contract definitions + proven equalities with a unit pivot (Gaussian step), in order
         self.lemma_log = []
 
     def dead_digits(self, roots):
@@ -53,28 +53,64 @@ class Problem:
             return set()
         for sd in ctx.side: used |= cvars(sd[2] if sd[0] == "booldef" else sd[1])
         for a in ctx.assume: used |= cvars(a)
-        return [v for v, repl, c1 in self.defs if v not in used and c1 is not None]
+        out = [v for v, repl, c1 in self.defs if v not in used and c1 is not None]
+        # dropped top digits (e.g. a carry-out that is masked away) are free variables used nowhere else
+        for key in ctx.order:
+            D = ctx.dec[key]
+            for d in D["digs"][1:]:
+                if d not in used and d not in ctx.split: out.append(d)
+        return out
 
-    def auto_zero_lemmas(self, roots, timeout_s=20, solver="z3"):
-        """try to prove each dead remainder digit is identically 0; proven ones become equalities"""
+    def auto_zero_lemmas(self, roots, timeout_s=2, solver="z3", passes=2):
+        """try to prove each dead remainder digit is identically 0 (all candidates of a pass in parallel);
+        proven ones become equalities and, where a unit pivot exists, eliminate a further variable"""
+        cands = []
         for v in self.dead_digits(roots):
-            r = self.check(Cond("cmp", "ne", Poly.var(v), ZERO), timeout_s=timeout_s, solver=solver, split=False)
-            self.lemma_log.append((v, r[0], round(r[2], 2)))
-            if r[0] == "unsat":
-                self.zero.add(v)
-                E = self.ex(Poly.var(v))          # == 0
-                from math import gcd
-                g = 0
-                for c in E.t.values(): g = gcd(g, abs(c))
-                if g > 1: E = E.divexact(g)
-                piv = None
-                cands = [(m, c) for m, c in E.t.items() if len(m) == 1 and abs(c) == 1 and m[0][0] == "d"
-                         and m[0] not in self.ctx.__dict__.get("_signdef", {})]
-                if cands:
-                    m, c = max(cands, key=lambda mc: int(mc[0][0][1:]))
-                    rest = Poly({mm: cc for mm, cc in E.t.items() if mm != m})
-                    self.var_elim.append((m[0], rest.scale(-c)))      # c*v + rest = 0  ->  v = -rest/c
+            lo, hi = self.ctx.bounds[v]
+            if hi - lo == 1: cands += [(v, lo), (v, hi)]     # booleans / sign digits: either constant value
+            elif lo <= 0 <= hi: cands.append((v, 0))
+        for ps in range(passes):
+            if not cands: break
+            jobs = []
+            for v, cst in cands:
+                if v in self.zero or any(e[0] == v for e in self.var_elim): continue
+                txt = self.text(Cond("cmp", "ne", Poly.var(v), Poly.const(cst)), (), None, want_model=False)
+                jobs.append((v, cst, txt))
+            res = list(_pool.map(lambda j: ("unsat", None) if j[2] is None else run_solver(j[2], solver, timeout_s), jobs))
+            proven = [(v, cst) for (v, cst, _), (verdict, _) in zip(jobs, res) if verdict == "unsat"]
+            for (v, cst, _), (verdict, _) in zip(jobs, res): self.lemma_log.append((v, verdict, ps, cst))
+            if not proven: break
+            done = set()
+            for v, cst in proven:
+                if v in done: continue
+                done.add(v); self._add_const(v, cst)
+            cands = [(v, cst) for (v, cst, _), (verdict, _) in zip(jobs, res) if verdict == "unknown" and v not in done]
         return self.lemma_log
+
+    def _add_const(self, v, cst):
+        if cst == 0: return self._add_zero(v)
+        if v not in self.full:
+            self.var_elim.append((v, Poly.const(cst))); return
+        # eliminated digit with a proven non-zero constant value: keep as an equality constraint
+        self.ctx.side.append(("cond", Cond("cmp", "eq", Poly.var(v), Poly.const(cst))))
+
+    def _add_zero(self, v):
+        from math import gcd
+        if v not in self.full:
+            # a free digit proven 0: substitute
+            self.var_elim.append((v, ZERO)); return
+        self.zero.add(v)
+        E = self.ex(Poly.var(v))          # == 0
+        if E.is_zero(): return
+        g = 0
+        for c in E.t.values(): g = gcd(g, abs(c))
+        if g > 1: E = E.divexact(g)
+        cands = [(m, c) for m, c in E.t.items() if len(m) == 1 and abs(c) == 1 and m[0][0] == "d"
+                 and m[0] not in self.ctx.__dict__.get("_signdef", {})]
+        if cands:
+            m, c = max(cands, key=lambda mc: int(mc[0][0][1:]))
+            rest = Poly({mm: cc for mm, cc in E.t.items() if mm != m})
+            self.var_elim.append((m[0], rest.scale(-c)))      # c*v + rest = 0  ->  v = -rest/c
 
     # ---------------------------------------------------------------- term printing
     def lin(self, poly, fixed=None):
@@ -87,10 +123,18 @@ class Problem:
         if not terms: return "0"
         return "(+ %s)" % " ".join(terms) if len(terms) > 1 else terms[0]
 
-    def ex(self, poly, fixed=None):
+    def ex(self, poly, fixed=None, goal=False):
+        """expand to free variables; `goal`: also apply rewrite rules that are only valid/meant for modular goals"""
         p = self.expand(poly)
-        for v, repl in self.var_elim:
-            if any(v in m for m in p.t): p = p.subst(v, repl)
+        if self.var_elim:
+            for _ in range(4 * len(self.var_elim) + 4):
+                vs = p.vars()
+                hit = [e for e in self.var_elim if e[0] in vs and (goal or len(e) == 2)]
+                if not hit: break
+                v, repl = hit[-1][0], hit[-1][1]
+                p = self.expand(p.subst(v, repl))
+            else:
+                raise RuntimeError("var_elim substitution did not converge")
         if fixed:
             for v, val in fixed.items(): p = p.subst(v, Poly.const(val))
         return p
@@ -111,7 +155,7 @@ class Problem:
             return {"eq": "(= %s 0)", "ne": "(not (= %s 0))", "lt": "(< %s 0)", "le": "(<= %s 0)", "gt": "(> %s 0)", "ge": "(>= %s 0)"}[pred] % t
         if k in ("modne", "modeq"):
             A, M = c.a
-            d = self.ex(A, fixed)
+            d = self.ex(A, fixed, goal=True)
             d = Poly({m: cc % M for m, cc in d.t.items() if cc % M})
             if d.is_const():
                 z = d.cval() % M == 0
@@ -125,7 +169,7 @@ class Problem:
         if c.k in ("and", "or"): return self.cond_polys(c.a[0]) + self.cond_polys(c.a[1])
         if c.k == "cmp": return [self.expand(c.a[1] - c.a[2])]
         if c.k in ("modne", "modeq"):
-            d = self.expand(c.a[0]); M = c.a[1]
+            d = self.ex(c.a[0], None, goal=True); M = c.a[1]
             return [Poly({m: cc % M for m, cc in d.t.items() if cc % M})]
         return []
 
@@ -142,13 +186,11 @@ class Problem:
             t = self.lin(e)
             if lo == hi: out.append("(= %s %s)" % (t, _num(lo)))
             else: out.append("(>= %s %s)" % (t, _num(lo))); out.append("(<= %s %s)" % (t, _num(hi)))
-        for i, (v, repl) in enumerate(self.var_elim):
+        for i, ent in enumerate(self.var_elim):
+            if len(ent) == 3: continue       # goal-only rewrite: the variable stays free in the constraint system
+            v, repl = ent
             lo, hi = ctx.bounds[v]
-            e = repl
-            for v2, r2 in self.var_elim[i + 1:]:
-                if any(v2 in m for m in e.t): e = e.subst(v2, r2)
-            if fixed:
-                for fv, fval in fixed.items(): e = e.subst(fv, Poly.const(fval))
+            e = self.ex(repl, fixed)
             if e.is_const():
                 if not (lo <= e.cval() <= hi): out.append("false")
                 continue
